@@ -11,6 +11,9 @@
    volume is conserved along the behaviour and an interior point is inside exactly one part.
    Two base configurations carry observers exactly ON the straight extensions of all 12 edges and on extensions of face planes
    of the cuboid (outside the body, on no cut): these are instantiated on the lattice itself (no global rotation, unit 2^e m).
+   THIN plates (aspect 1:1000 along each axis, 1:5000) are cut into halves and slabs, converted to mesh / hull / sheets and cut by
+   their diagonal plane into two prism meshes whose face lists start with the slanted face ("Prisms"; premise: two closed outward
+   convex meshes in the box on different sides of that plane with exactly its volume); observers at distances of the large extent.
 2. Every transition is instantiated under a random concretization kappa (every other one on the exact lattice); per-source getB/getH are logged as two-limb
    fixed-point numbers (1e-12 of the gross scale per observer and field).
 3. spec/TV_Laws re-checks the premise and judges Sum(before) = Sum(after) for the fields the law claims (H only for
